@@ -163,6 +163,140 @@ impl Group for Replace {
     }
 }
 
+/// C18, the splice as response bodies meet it: several edits of one body, one after the other, on a buffer that has
+/// some spare capacity left from the last growth (the first edit of a shared body copies it and the allocator rounds up;
+/// later edits eat the spare room) — every amount of spare room against every growth.
+pub struct ReplaceSeq;
+impl Group for ReplaceSeq {
+    fn name(&self) -> &'static str {
+        "c18.replaceseq"
+    }
+    fn rule(&self) -> &'static str {
+        "BytesCow::replace applied 1-6 times to one body (lengths 0-120) that starts as Ref or as Mut with 0-80 bytes of spare capacity: growing, shrinking and same-length edits at random in-bounds ranges, and the nonce-like pattern (the same 26-byte insertion repeated); every spare capacity 0..=40 against growths 1..=40 for a single edit (bounded-exhaustive); the bytes compared with the model's fold of `replace` and with Vec::splice; after every edit the buffer's length must not exceed its capacity; non-trivial = an edit grew the body beyond the spare capacity that was left"
+    }
+    fn generate(&self, ctx: &Ctx, rng: &mut Rng) -> Vec<String> {
+        let mut v = Vec::new();
+        let maxs = if ctx.mode == Mode::Quick { 40 } else { 96 };
+        for spare in 0..=maxs {
+            for g in 1..=maxs {
+                let len = [0usize, 3, 10, 100][(spare + g) % 4];
+                v.push(format!("c18.replaceseq {} {spare} [{}:{}:{}]", hex(&gen_bytes(len, 3)), len / 2, len / 2, hex(&gen_bytes(g, 201))));
+            }
+        }
+        // the nonce pattern: the same insertion again and again
+        for len in [30usize, 64, 100, 130] {
+            for ins in [20usize, 26, 33] {
+                let ops: Vec<String> = (0..5).map(|i| format!("{}:{}:{}", i * (ins + 2), i * (ins + 2), hex(&gen_bytes(ins, 77)))).collect();
+                v.push(format!("c18.replaceseq {} ref {}", hex(&gen_bytes(len, 5)), list(ops.clone())));
+                v.push(format!("c18.replaceseq {} 0 {}", hex(&gen_bytes(len, 5)), list(ops)));
+            }
+        }
+        let n = if ctx.mode == Mode::Quick { 1500 } else { 60_000 };
+        for _ in 0..n {
+            let len = rng.below(121);
+            let mut cur = len;
+            let k = rng.range(1, 6);
+            let mut ops = Vec::new();
+            for _ in 0..k {
+                let s = rng.below(cur + 1);
+                let e = rng.range(s, cur);
+                let rl = match rng.below(4) { 0 => e - s, 1 => rng.below(e - s + 1), _ => rng.below(70) };
+                ops.push(format!("{s}:{e}:{}", hex(&gen_bytes(rl, 200))));
+                cur = cur + rl - (e - s);
+            }
+            let start = if rng.chance(1, 4) { "ref".to_owned() } else { rng.below(81).to_string() };
+            v.push(format!("c18.replaceseq {} {start} {}", hex(&gen_bytes(len, rng.below(100))), list(ops)));
+        }
+        v
+    }
+    fn parallel(&self) -> bool {
+        // in order, on one thread: the cases start with the smallest growths, and once an edit has written past its
+        // buffer no further edit is run in this process (a larger overrun would take the whole run down with it)
+        false
+    }
+    fn driver_line(&self, line: &str) -> String {
+        let p: Vec<&str> = line.split(' ').collect();
+        format!("c18.replaceseq {} {}", p[1], p[3])
+    }
+    fn run_impl(&self, _ctx: &Ctx, line: &str) -> String {
+        let p: Vec<&str> = line.split(' ').collect();
+        let body = unhex(p[1]).unwrap();
+        let ops: Vec<(usize, usize, Vec<u8>)> = parse_list(p[3]).unwrap().iter().map(|o| {
+            let f: Vec<&str> = o.split(':').collect();
+            (f[0].parse().unwrap(), f[1].parse().unwrap(), unhex(f[2]).unwrap())
+        }).collect();
+        let start = p[2].to_owned();
+        static TRIPPED: std::sync::atomic::AtomicBool = std::sync::atomic::AtomicBool::new(false);
+        static SEEN: std::sync::Mutex<Vec<(String, String)>> = std::sync::Mutex::new(Vec::new());
+        if let Some((_, msg)) = SEEN.lock().unwrap().iter().find(|(l, _)| l == line) {
+            // the same case again (shrinking, confirmation): what it did the first time
+            return msg.clone();
+        }
+        if TRIPPED.load(std::sync::atomic::Ordering::SeqCst) {
+            return "inconclusive: not run, an earlier edit wrote past its buffer".into();
+        }
+        let line2 = line.to_owned();
+        guarded(move || {
+            let mut c = if start == "ref" {
+                kvarn_utils::BytesCow::Ref(Bytes::copy_from_slice(&body))
+            } else {
+                let mut m = BytesMut::with_capacity(body.len() + start.parse::<usize>().unwrap());
+                m.extend_from_slice(&body);
+                kvarn_utils::BytesCow::Mut(m)
+            };
+            for (i, (s, e, r)) in ops.iter().enumerate() {
+                let room = match &c { kvarn_utils::BytesCow::Mut(m) => m.capacity() - m.len(), _ => 0 };
+                c.replace(*s..*e, r);
+                if let kvarn_utils::BytesCow::Mut(m) = &c {
+                    if m.len() > m.capacity() {
+                        TRIPPED.store(true, std::sync::atomic::Ordering::SeqCst);
+                        // the buffer is not ours to free any more
+                        let msg = format!("OVERRUN edit {i}: length {} exceeds the capacity {} (spare room before the edit: {room})", m.len(), m.capacity());
+                        SEEN.lock().unwrap().push((line2.clone(), msg.clone()));
+                        std::mem::forget(c);
+                        return msg;
+                        #[allow(unreachable_code)]
+                        return format!("OVERRUN edit {i}: length {} exceeds the capacity {} (spare room before the edit: {room})", m.len(), m.capacity());
+                    }
+                }
+            }
+            hex(&c.freeze())
+        })
+    }
+    fn oracle(&self, _ctx: &Ctx, line: &str, out: &str) -> Option<(String, String)> {
+        if out.starts_with("OVERRUN") {
+            return Some((format!("overrun:{line}"), format!("the splice wrote past its buffer: {out}")));
+        }
+        let p: Vec<&str> = line.split(' ').collect();
+        let mut body = unhex(p[1]).unwrap();
+        for o in parse_list(p[3])? {
+            let f: Vec<&str> = o.split(':').collect();
+            let (s, e): (usize, usize) = (f[0].parse().ok()?, f[1].parse().ok()?);
+            if !(s <= e && e <= body.len()) {
+                return None;
+            }
+            body.splice(s..e, unhex(f[2])?);
+        }
+        if hex(&body) != out {
+            return Some((format!("splice:{line}"), format!("Vec::splice gives {}, BytesCow::replace gave {out}", hex(&body))));
+        }
+        None
+    }
+    fn nontrivial(&self, line: &str, _o: &str) -> bool {
+        // an edit that grows the body by more than the spare room it started with
+        let p: Vec<&str> = line.split(' ').collect();
+        let spare: usize = p[2].parse().unwrap_or(0);
+        parse_list(p[3]).unwrap_or_default().iter().any(|o| {
+            let f: Vec<&str> = o.split(':').collect();
+            let (s, e): (usize, usize) = (f[0].parse().unwrap_or(0), f[1].parse().unwrap_or(0));
+            f[2].len() / 2 > e.saturating_sub(s) + spare
+        })
+    }
+    fn classify(&self, l: &str, o: &str) -> String {
+        format!("{} {}", if l.split(' ').nth(2) == Some("ref") { "ref" } else { "mut" }, if o == "panic" { "panic" } else if o.starts_with("OVERRUN") { "overrun" } else { "ok" })
+    }
+}
+
 /// An `AsyncRead` that hands out the stream in scripted chunk sizes (pattern cycled; each read gives
 /// `min(max(want,1), buf.remaining(), available)` bytes, 0 at the end).
 pub struct Scripted {
